@@ -111,6 +111,9 @@ class SReal(Model):
     def m_is(self, eng, other):
         return other is self
 
+    def m_truth(self, eng):
+        return eng.branch(self.e != 0)
+
     def m_binop(self, eng, op, other, reflected):
         return NotImplemented
 
